@@ -114,8 +114,12 @@ def check_abort_points(tname, root, res):
         files = [r for h, r in T0 if h == 'on_validate_file' or (h in ('on_skip', 'on_match'))]
         routed = [r for h, r in T0 if h in ('on_match', 'on_skip')]
         res.n['evaluations'] += 1
-        if len(routed) != len(set(routed)):
-            res.add_violation(ID, run.viol('routed-twice', {'tree': tname, 'skip_values': skip_values}, 'each file once', routed))
+        visited = sorted(p for p in TREES[tname] if not p.startswith('skipme/'))
+        n_skip = sum(1 for h, r in T0 if h == 'on_skip')
+        if sorted(routed) != visited or w0.get_skipped() != n_skip:
+            res.add_violation(ID, run.viol('routing', {'tree': tname, 'skip_values': skip_values},
+                                           {'each visited file to exactly one of on_match/on_skip': visited, 'skipped': n_skip},
+                                           {'routed': sorted(routed), 'skipped': w0.get_skipped()}))
         for k in range(len(T0)):
             for action in ('kill', 'raise'):
                 res.n['evaluations'] += 1
